@@ -23,6 +23,7 @@ import (
 	"path/filepath"
 	"runtime"
 	"runtime/debug"
+	"runtime/pprof"
 	"sort"
 	"strconv"
 	"strings"
@@ -35,6 +36,7 @@ import (
 	"github.com/lianxiangcloud/linkchain/libs/common"
 	"github.com/lianxiangcloud/linkchain/libs/log"
 	"github.com/lianxiangcloud/linkchain/state"
+	"github.com/lianxiangcloud/linkchain/types"
 )
 
 // ---- the layers of a tier ----
@@ -46,11 +48,30 @@ func buildLayers(w *world, thorough bool) []layer {
 	dm := depthMatrix()
 	ls = append(ls, layer{name: "D", what: fmt.Sprintf("%d self-recursive programs (CALL/CALLCODE/DELEGATECALL/STATICCALL to self with all gas, CREATE/CREATE2 of own code, stack-limit loop; 4 tails) x %d configurations with gas up to 2^64-1: the 1024 call-depth limit is reached", len(dp), len(dm)),
 		n: len(dp), gen: func(i int) (string, []byte) { return dp[i].name, dp[i].code }, configs: func(int) []config { return dm }})
+	// P: the entry goes straight to a fixture account / precompile (no program of ours involved)
+	pt := directTargets()
+	pm := directMatrix()
+	ls = append(ls, layer{name: "P", what: fmt.Sprintf("direct entry (Call, UTXOCall, StaticCall, TokenCall) into each of %d fixture accounts / precompiles x 5 gas levels x 3 values", len(pt)),
+		n: len(pt), gen: func(i int) (string, []byte) { return "direct:" + nameOf(pt[i]), nil },
+		configs: func(i int) []config {
+			out := make([]config, len(pm))
+			for k, c := range pm {
+				c.to = &pt[i]
+				out[k] = c
+			}
+			return out
+		}})
+	// B1 and the short sequences first: cheap and diverse
+	full := fullMatrix()
+	ls = append(ls, byteLayer(1, full))
+	for l := 0; l <= 2; l++ {
+		ls = append(ls, seqLayer(l, full, "full matrix"))
+	}
 	// C: call structures
-	cp := callPrograms()
+	cp := callPrograms(thorough)
 	cm := callMatrix()
 	cmSmall := smallGasOnly(cm)
-	ls = append(ls, layer{name: "C", what: fmt.Sprintf("%d call-structure programs: [pre] CALLKIND(target,value,gas) [post] over 4 call kinds x 18 targets x 3 values x 3 gas operands x 4 pre x 7 post, and all pairs of all-gas calls x 2 post; x %d configurations (programs that reach the spinner fixture only at gas <= 50000)", len(cp), len(cm)),
+	ls = append(ls, layer{name: "C", what: fmt.Sprintf("%d call-structure programs: [pre] CALLKIND(target,value,gas) [post] over 4 call kinds x 18 targets x 3 values x 3 gas operands x 4 pre x 7 post, and pairs of all-gas calls x 2 post (quick tier: pairs without the self target, the value-255 and CALLCODE-v0 variants); x %d configurations (programs that reach the spinner fixture only at gas <= 50000)", len(cp), len(cm)),
 		n: len(cp), gen: func(i int) (string, []byte) { return cp[i].name, cp[i].code },
 		configs: func(i int) []config {
 			if cp[i].spinner {
@@ -62,24 +83,31 @@ func buildLayers(w *world, thorough bool) []layer {
 	ar := measureArity(w)
 	sp := sweepPrograms(ar, thorough)
 	sm := sweepMatrix()
-	ls = append(ls, layer{name: "V", what: fmt.Sprintf("%d operand-sweep programs: every opcode byte 0x00..0xff x every operand vector over boundary values (10 values for <=3 operands, 6 for 4, 4-5 for 6-7), with and without a warm-up call; x %d configurations", len(sp), len(sm)),
+	ls = append(ls, layer{name: "V", what: fmt.Sprintf("%d operand-sweep programs: every opcode byte 0x00..0xff x every operand vector over boundary values (10 values for <=3 operands, 6 for 4; for 6-7 operands 3 values in the quick tier, 4-5 in the thorough tier), with and without a warm-up call; x %d configurations", len(sp), len(sm)),
 		n: len(sp), gen: func(i int) (string, []byte) { return sp[i].name, sp[i].code }, configs: func(int) []config { return sm }})
-	// B: raw byte strings
-	bm := []config{{entCall, 10000000, 1, nil}, {entCreate, 10000000, 0, nil}}
-	ls = append(ls, byteLayer(1, fullMatrix()), byteLayer(2, bm))
-	// S: instruction sequences
-	full := fullMatrix()
-	red := reducedMatrix()
+	// B2: all two-byte codes
+	ls = append(ls, byteLayer(2, []config{{entry: entCall, gas: 10000000, value: 1}, {entry: entCreate, gas: 10000000, value: 0}}))
+	// S: the longer instruction sequences
+	red := reducedMatrix(thorough)
 	deep := 4
 	if thorough {
 		deep = 5
 	}
-	for l := 0; l < deep; l++ {
+	for l := 3; l < deep; l++ {
 		ls = append(ls, seqLayer(l, full, "full matrix"))
 	}
 	ls = append(ls, seqLayer(deep, red, "reduced matrix"))
-	if thorough {
-		ls = append(ls, byteLayer(3, []config{{entCall, 1000000, 1, nil}}))
+	// development knob: C20_ONLY=S3,V restricts the run to some layers (the supervisor then reports a cap)
+	if only := os.Getenv("C20_ONLY"); only != "" {
+		var keep []layer
+		for _, l := range ls {
+			for _, n := range strings.Split(only, ",") {
+				if l.name == n {
+					keep = append(keep, l)
+				}
+			}
+		}
+		ls = keep
 	}
 	return ls
 }
@@ -95,7 +123,7 @@ func measureArity(w *world) [256]int {
 				code = append(code, push1(0)...)
 			}
 			code = append(code, byte(b))
-			r := run(w, w.open(code), common.Hash{}, code, config{entCall, 100000, 0, nil}, false)
+			r := run(w, w.open(code), common.Hash{}, code, config{entry: entCall, gas: 100000, value: 0}, false)
 			if r.panicked || !strings.HasPrefix(r.err, "stack underflow") {
 				ar[b] = k
 				break
@@ -122,23 +150,29 @@ type layerStats struct {
 	Complete bool           `json:"complete"`
 	Total    int            `json:"programs_in_layer"`
 	CPU      float64        `json:"cpu_s"`
+	DBErrs   int            `json:"observed_memoised_statedb_errors"`
 }
 
 type wmsg struct {
-	T      string                 `json:"t"`
-	Key    string                 `json:"key,omitempty"`
-	What   string                 `json:"what,omitempty"`
-	Prog   int                    `json:"prog,omitempty"`
-	Cfg    int                    `json:"cfg,omitempty"`
-	Replay map[string]interface{} `json:"replay,omitempty"`
-	Stats  []*layerStats          `json:"stats,omitempty"`
-	Sigs   []string               `json:"sigs,omitempty"`
-	Counts map[string]int         `json:"counts,omitempty"`
-	Capped string                 `json:"capped,omitempty"`
+	T       string                   `json:"t"`
+	Key     string                   `json:"key,omitempty"`
+	What    string                   `json:"what,omitempty"`
+	Prog    int                      `json:"prog,omitempty"`
+	Cfg     int                      `json:"cfg,omitempty"`
+	Replay  map[string]interface{}   `json:"replay,omitempty"`
+	Stats   []*layerStats            `json:"stats,omitempty"`
+	Sigs    []string                 `json:"sigs,omitempty"`
+	Counts  map[string]int           `json:"counts,omitempty"`
+	Capped  string                   `json:"capped,omitempty"`
+	Samples []map[string]interface{} `json:"samples,omitempty"`
 }
 
 func replayOf(l *layer, name string, code []byte, c config) map[string]interface{} {
-	return map[string]interface{}{"layer": l.name, "program": name, "code": hx(code), "entry": entryName[c.entry], "gas": c.gas, "value": c.value, "input": hx(c.input)}
+	m := map[string]interface{}{"layer": l.name, "program": name, "code": hx(code), "entry": entryName[c.entry], "gas": c.gas, "value": c.value, "input": hx(c.input)}
+	if c.to != nil {
+		m["to"] = hx(c.to[:])
+	}
+	return m
 }
 
 func workerMain(spec string) {
@@ -152,7 +186,7 @@ func workerMain(spec string) {
 	// address-space limit: a runaway allocation must kill this worker, not the machine
 	lim := uint64(6 << 30)
 	syscall.Setrlimit(syscall.RLIMIT_AS, &syscall.Rlimit{Cur: lim, Max: lim})
-	debug.SetGCPercent(400)
+	debug.SetGCPercent(1600)
 	var slot []byte
 	if p := os.Getenv("C20_SLOTS"); p != "" {
 		f, err := os.OpenFile(p, os.O_RDWR, 0644)
@@ -166,12 +200,19 @@ func workerMain(spec string) {
 	}
 	out := bufio.NewWriterSize(os.Stdout, 1<<16)
 	enc := json.NewEncoder(out)
+	if pf := os.Getenv("C20_PROF"); pf != "" && shard == 0 {
+		if fh, err := os.Create(pf); err == nil {
+			pprof.StartCPUProfile(fh)
+			defer pprof.StopCPUProfile()
+		}
+	}
 	startWatchdog()
 	w := buildWorld()
 	layers := buildLayers(w, thorough)
 	var stats []*layerStats
 	counts := map[string]int{}
 	sigs := map[string]bool{}
+	var samples []map[string]interface{}
 	capped := ""
 	base := 0
 outer:
@@ -221,8 +262,22 @@ outer:
 				if a.maxDepth > ls.MaxDepth {
 					ls.MaxDepth = a.maxDepth
 				}
+				if a.stateError != "" {
+					ls.DBErrs++
+				}
 				ls.Outcomes[cls]++
-				sigs[signature(cls, a)] = true
+				if sg := signature(cls, a); !sigs[sg] {
+					sigs[sg] = true
+					if len(samples) < 40 {
+						sm := replayOf(l, name, code, c)
+						sm["outcome"] = sg
+						sm["gas_left"] = a.left
+						if a.post != nil {
+							sm["world_delta"] = a.post.String()
+						}
+						samples = append(samples, sm)
+					}
+				}
 				for _, f := range fs {
 					counts[f.key]++
 					if counts[f.key] <= 2 {
@@ -243,7 +298,7 @@ outer:
 		sl = append(sl, s)
 	}
 	sort.Strings(sl)
-	enc.Encode(wmsg{T: "done", Stats: stats, Sigs: sl, Counts: counts, Capped: capped})
+	enc.Encode(wmsg{T: "done", Stats: stats, Sigs: sl, Counts: counts, Capped: capped, Samples: samples})
 	out.Flush()
 }
 
@@ -336,6 +391,9 @@ func (t *tailBuf) String() string {
 
 func main() {
 	log.Root().SetHandler(log.DiscardHandler())
+	// node option save_balance_record: with it off GenBalanceRecord returns empty records and the balance
+	// records of an execution (part of its result) could not be compared between runs
+	types.SaveBalanceRecord = true
 	if spec := os.Getenv("C20_WORKER"); spec != "" {
 		workerMain(spec)
 		return
@@ -370,6 +428,7 @@ func main() {
 	deadline := time.Now().Add(r.Remaining() - margin)
 
 	// the layers, for decoding crash slots and for totals (the supervisor runs no case itself, except the arity probe)
+	startWatchdog()
 	w := buildWorld()
 	layers := buildLayers(w, !r.Quick())
 	locate := func(gi int) (*layer, int) {
@@ -453,7 +512,7 @@ func main() {
 				cfgs := l.configs(i)
 				c := cfgs[ci%len(cfgs)]
 				mu.Lock()
-				crashes = append(crashes, crash{"process-crash:" + cls + ":" + opClass(code),
+				crashes = append(crashes, crash{"process-crash:" + cls,
 					fmt.Sprintf("the process executing the program died (%s): %s", cls, strings.Split(tail.String(), "\n")[0]), gi, ci, replayOf(l, name, code, c)})
 				ws.crashes++
 				tooMany := ws.crashes >= 40
@@ -500,6 +559,16 @@ func main() {
 		for _, s := range ws.done.Sigs {
 			sigs[s] = true
 		}
+		if ws.shard == 0 {
+			seen := map[string]bool{}
+			for _, sm := range ws.done.Samples {
+				cls := strings.SplitN(fmt.Sprint(sm["outcome"]), "|", 2)[0]
+				if !seen[cls] {
+					seen[cls] = true
+					r.Sample(sm)
+				}
+			}
+		}
 		if ws.done.Capped != "" {
 			r.Capped(fmt.Sprintf("worker %d/%d: %s", ws.shard, nw, ws.done.Capped))
 		}
@@ -517,6 +586,7 @@ func main() {
 			m.Frames += ls.Frames
 			m.Reverts += ls.Reverts
 			m.CPU += ls.CPU
+			m.DBErrs += ls.DBErrs
 			if ls.MaxDepth > m.MaxDepth {
 				m.MaxDepth = ls.MaxDepth
 			}
@@ -528,6 +598,9 @@ func main() {
 			}
 		}
 	}
+	if os.Getenv("C20_ONLY") != "" {
+		r.Capped("C20_ONLY=" + os.Getenv("C20_ONLY") + ": only some layers were run (development knob)")
+	}
 	if gaveUp {
 		r.Capped("a worker crashed 40 times and was not restarted again; its shard is incomplete")
 	}
@@ -537,8 +610,16 @@ func main() {
 		}
 		return all[i].cfg < all[j].cfg
 	})
+	reported := map[string]int{}
 	for _, x := range all {
 		r.Violation(x.key, x.what, x.replay)
+		reported[x.key]++
+	}
+	// make the printed case count the true one (workers forward only their first two cases per key)
+	for k, n := range total {
+		for i := reported[k]; i < n && i < 1000000; i++ {
+			r.Violation(k, "", nil)
+		}
 	}
 	var per []interface{}
 	programs, cases, runs, frames, reverts, maxDepth := 0, 0, 0, 0, 0, 0
@@ -594,6 +675,7 @@ func main() {
 	r.Assume("IntermediateRoot(false) as the application calls it; database = state.NewDatabase over the copying MemDB")
 	r.Assume("the observed run uses evm.Config{Debug:true, Tracer}; it is compared against the plain run of the same case, so the tracer path is not trusted")
 	r.Assume("wall-clock is used only as a 20 s safety net per case; the termination oracle is the deterministic step budget")
+	r.Assume("types.SaveBalanceRecord = true (node option save_balance_record) so that the balance records an execution emits are real and comparable between the two runs")
 	r.Assume("WASM contracts, the app-level state transition around the EVM (buyGas, refundGas, nonce), precompile internals and tracing APIs are outside this check")
 	r.Finish()
 }
@@ -608,11 +690,16 @@ func replayMain(r *vk.Run) {
 		Gas     uint64 `json:"gas"`
 		Value   int64  `json:"value"`
 		Input   string `json:"input"`
+		To      string `json:"to"`
 	}
 	r.LoadReplay(&rp)
 	code, _ := hex.DecodeString(rp.Code)
 	in, _ := hex.DecodeString(rp.Input)
 	c := config{gas: rp.Gas, value: rp.Value, input: in}
+	if rp.To != "" {
+		t := common.HexToAddress(rp.To)
+		c.to = &t
+	}
 	for i, n := range entryName {
 		if n == rp.Entry {
 			c.entry = entryKind(i)
@@ -632,6 +719,7 @@ func replayMain(r *vk.Run) {
 	fmt.Printf("outcome=%s err=%q left=%d ret=%x steps=%d frames=%d depth=%d\n", cls, a.err, a.left, a.ret, a.steps, a.frames, a.maxDepth)
 	if a.post != nil {
 		fmt.Printf("world delta: %s\n", a.post)
+		fmt.Printf("balance records: %s  fee refunds: %d/%d\n", a.otxs, a.refundFee, a.refundAll)
 	}
 	for _, f := range fs {
 		r.Violation(f.key, f.what, map[string]interface{}{"program": rp.Program, "code": rp.Code, "entry": rp.Entry, "gas": rp.Gas, "value": rp.Value, "input": rp.Input})
